@@ -15,12 +15,15 @@ into ONE jq program that is run once over all inputs (a few dozen spawns for the
 one 22 ms spawn per pair); the wrapping is itself checked against plain `jq -c P` runs on a slice.
 Answers are cached in /verif/.cache/jq16-cache.json keyed by (jq --version, program, input).
 
-Space: P(1) = every base term x every input; P(2) = `a | b` for a, b in the base set (quick: b in a
-core subset) and the unary contexts [a], (a)?, try (a) catch ., map(a), first(a), path(a), del(a), ...;
-plus the literal operator matrix (every arithmetic / comparison operator on every pair of type
-representatives).  Programs that hit a divergence listed in docs/compliance/jq/limitations.md are
+Space: P(1) = every base term (387) x every input (17); the operator matrix = every arithmetic / comparison operator on
+every ordered pair of 15 literal representatives of all types; P(2) = `a | b` for a, b in the base set (thorough: all
+387 x 387 on 12 inputs; quick: 30 core second stages on 4 inputs) and every base term in 21 unary contexts ([a], (a)?,
+try (a) catch ., map(a), first(a), limit, path(a), del(a), (a) = 1, (a) |= 1, //, if, reduce, isempty, as, -, not ...;
+thorough on 17 inputs, quick on 3).  Programs that hit a divergence listed in docs/compliance/jq/limitations.md are
 excluded by construct (table DIVERGENCES) and counted.  succinctly runs through batch.runbatch as
-`succinctly jq -c PROGRAM` with the input on stdin; observation = (stdout, exit status, stderr).
+`succinctly jq -c PROGRAM` with the input on stdin; observation = (stdout values, exit status, stderr message).
+Quick stays fast because jq 1.6 costs a few dozen bulk runs (cold cache: ~240 spawns, warm: none) instead of one spawn
+per pair; the Python model (~0.4 ms per pair) and the batch jobs are sharded over 16 forked workers.
 Disagreements are attributed to the minimal sub-program: `a | b` whose prefix `a` already disagrees on
 that input is attributed to `a`; otherwise the signature names the last stage and the kind of value it
 received, so one root cause gives one signature.
@@ -43,7 +46,7 @@ INPUTS = ["null", "true", "false", "0", "-1", "1.5", '""', '"a"', '"a,bé"', "[]
 QUICK_INPUTS = ["null", '"a,bé"', "[1,2,3]", '{"a":1,"b":[1,2]}']
 THOROUGH_PIPE_INPUTS = ["null", "true", "0", "1.5", '""', '"a,bé"', "[]", "[1,2,3]", '[[1],{"a":2},"x",null]', "{}",
                         '{"a":1,"b":[1,2]}', '{"a":{"b":null}}']
-QUICK_CTX_INPUTS = ["null", '"a,bé"', "[1,2,3]", '{"a":1,"b":[1,2]}']
+QUICK_CTX_INPUTS = ["null", "[1,2,3]", '{"a":1,"b":[1,2]}']
 
 NULLARY = ("type length utf8bytelength keys keys_unsorted empty not add any all flatten sort reverse unique min max "
            "floor ceil round sqrt fabs trunc log exp exp2 log2 log10 sin cos tan asin acos atan sinh cosh tanh "
@@ -111,11 +114,10 @@ CONTEXTS = ["[%s]", "(%s)?", "try (%s) catch .", "[.[]? | %s]", "first(%s)", "[l
             "del(%s)", "[%s] | length", "isempty(%s)", "(%s) as $x | [$x]", "[(%s), 1]", "-(%s)", "(%s) | not"]
 
 # second stages of quick-tier pipes (every base term is a first stage)
-CORE_B = ["type", "length", "keys", "not", "add", "sort", "reverse", "unique", "tojson", "tostring", "tonumber", "first", "last",
-          ".[]", ".[]?", ".a", ".[0]", ".[1:]", "to_entries", "from_entries", "tostream", "paths", "floor", "explode", "flatten",
-          "min", "transpose", "@csv", ". + 1", '. + "a"', ". - 1", ". * 2", ". / 2", ". < 1", 'has("a")', "map(.)", 'split(",")',
-          'join(",")', 'index("a")', "contains(.)", "del(.a)", ".a = 1", ".a |= 2", "error", "try error catch .",
-          "if . then 1 else 2 end", '"a\\(.)"', "-(.)", "combinations", "walk(.)"]
+CORE_B = ["type", "length", "keys", "not", "add", "sort", "reverse", "tojson", "tostring", "first", "last",
+          ".[]", ".a", ".[0]", ".[1:]", "floor", "flatten", "transpose", ". + 1", '. + "a"', ". < 1",
+          'has("a")', "map(.)", 'split(",")', 'index("a")', "del(.a)", ".a = 1", "error",
+          "if . then 1 else 2 end", "-(.)"]
 
 LITS = ["null", "false", "true", "0", "1", "-1", '""', '"a"', '"ab"', "[]", "[1]", "[1,2]", "{}", '{"a":1}', '{"a":{"b":1}}']
 ARITH = ["+", "-", "*", "/", "%"]
@@ -438,7 +440,7 @@ def programs(tier):
     for a in LITS:
         for b in LITS:
             for op in ARITH + CMP:
-                out.append(("matrix", "%s %s %s" % (a, op, b), ["null"], None))
+                out.append(("matrix", "%s %s %s" % (a, op, b), ["null"], ("matrix", a, op, b)))
     second = CORE_B if tier == "quick" else B
     qinputs = QUICK_INPUTS if tier == "quick" else THOROUGH_PIPE_INPUTS
     for a in B:
@@ -778,6 +780,10 @@ class Judge:
         return ("fail" if det else "fail-undet"), (m, exp, obs, w, m16)
 
 
+GENERIC_SENTENCES = ("Cannot index", "Cannot iterate", "Cannot use", "Cannot check", "Invalid path", "expected <t>", "<t> (<v>) has no",
+                     "<t> (<v>) cannot be", "<t> (<v>) and <t> (<v>) cannot be added", "<t> (<v>) and <t> (<v>) cannot be subtracted",
+                     "<t> (<v>) and <t> (<v>) cannot be multiplied", "<t> (<v>) and <t> (<v>) cannot be divided",
+                     "<t> (<v>) <t> required", "<t> not a", "<t> (<v>) is not")
 LIBM1 = {"floor", "ceil", "round", "sqrt", "fabs", "trunc", "log", "log2", "log10", "exp", "exp2", "sin", "cos", "tan", "asin", "acos",
          "atan", "sinh", "cosh", "tanh"}
 
@@ -831,7 +837,9 @@ def base_signature(prog_for_key, on_text, exp, obs, prog_full, flags=(), ctx=Non
             a, b = exp[2], obs[2]
             how = "truncation-width" if (a.rstrip(".").startswith(b.rstrip(".")) or b.rstrip(".").startswith(a.rstrip("."))) else "embedded-value"
             return "message:%s:%s" % (how, so)
-        return "message:%s:[succinctly] %s" % (tk, so)
+        if so.startswith(GENERIC_SENTENCES):
+            return "message:%s:[succinctly] %s" % (tk, so)      # a sentence many raise sites share: name the builtin too
+        return "message:[succinctly] %s" % so
     if dk == "error(jq:value)":
         return "%s%s:errors-where-jq-answers:%s" % (where, tk, sentence(obs[2]))
     if dk == "no-error(jq:error)":
@@ -900,9 +908,24 @@ def _outputs_nonfinite(a, inp):
 
 def composite_signature(space, prog, inp, parts, exp, obs, flags):
     """Signature of a disagreement that no sub-program shows on its own."""
+    if space == "matrix" and parts and parts[0] == "matrix":
+        _, a, op, b = parts
+        sig = base_signature(prog, None, exp, obs, prog, flags)
+        if sig.startswith(("message:[", "unary-minus", "parse:", "status-")):
+            return sig
+        ka, kb = kind_class(a).replace("empty-", ""), kind_class(b).replace("empty-", "")
+        if op in CMP:
+            return "compare:%s:%s" % (",".join(sorted((ka, kb))), diff_kind(exp, obs))
+        return "arithmetic:%s:%s,%s:%s" % (op, ka, kb, sig.split(":", 1)[1] if ":" in sig else sig)
     if space == "P2-pipe":
+        known_b = G.get("p1_fail", {}).get((parts[1], "null"))
+        if known_b and input_independent(parts[1]):
+            return known_b      # the second stage ignores its input and already disagrees on its own
         if _outputs_nonfinite(parts[0], inp):
             # the second stage receives infinite / nan, which cannot be fed in as an input document
+            sig0 = base_signature(parts[1], None, exp, obs, prog, flags)
+            if sig0.startswith(("parse:", "unary-minus", "message:[", "path")):
+                return sig0          # the raise site / construct already names the root cause
             return "nonfinite-number:%s:%s" % (family(term_key(parts[1])), diff_kind(exp, obs, uses_libm(prog)))
         sig = base_signature(parts[1], None, exp, obs, prog, flags, ctx="after " + term_key(parts[0]))
     elif space == "P2-context":
@@ -972,7 +995,7 @@ def process_shard(arg):
         return o is not None and o[0] == "unsupported" and "asserts in 1.6" in o[1]
     nc = G.get("nocompile_terms") or ()
     for (space, prog, inputs, parts) in items:
-        if parts is not None and (parts[0] in nc or (space == "P2-pipe" and parts[1] in nc)):
+        if parts is not None and space != "matrix" and (parts[0] in nc or (space == "P2-pipe" and parts[1] in nc)):
             d = W.data.setdefault(prog, {})
             for i in inputs:
                 d.setdefault(i, ("nocompile",))
@@ -1016,7 +1039,7 @@ def process_shard(arg):
     plans = []
     for (space, prog, inp, parts, status, info) in pending:
         subs = []
-        if parts is not None:
+        if parts is not None and space != "matrix":
             a = parts[0]
             if (a, inp) in p1_fail and space in ("P2-pipe", "P2-context"):
                 plans.append((space, prog, inp, parts, status, info, ("p1", p1_fail[(a, inp)])))
@@ -1146,18 +1169,22 @@ def _wrap_selftest(W, pairs):
 def run(ctx):
     tier = ctx["tier"]
     rep = batch.Report()
-    batch.cli()
-    if ctx["replay"]:
-        return replay(ctx, rep)
     timing = {}
     t0 = time.time()
+    batch.cli()
+    timing["build_s"] = round(time.time() - t0, 2)
+    if ctx["replay"]:
+        return replay(ctx, rep)
+    tb = time.time()
     bind_model(rep)
-    timing["bind_s"] = round(time.time() - t0, 2)
+    timing["bind_s"] = round(time.time() - tb, 2)
+    tb = time.time()
     W = Witness()
+    timing["cache_load_s"] = round(time.time() - tb, 2)
     import gc
     gc.collect()
     gc.freeze()          # the cached jq 1.6 answers are millions of long-lived objects: keep the cyclic GC off them
-    gc.set_threshold(100000, 50, 50)
+    gc.set_threshold(5000, 50, 100)
     G.clear()
     G["witness"] = W
     quick_progs = set(p for (_, p, _, _) in programs("quick"))
@@ -1205,6 +1232,7 @@ def run(ctx):
                     break
     timing["p2_s"] = round(time.time() - t2, 2)
     # persist the witness answers of the quick space
+    t3 = time.time()
     for p, d in tot["newwit"].items():
         W.data.setdefault(p, {}).update(d)
     if tot["wit_fresh"] or W.dirty:
@@ -1235,6 +1263,8 @@ def run(ctx):
     rep.distinct = tot["distinct"]
     for smp in tot["samples"]:
         rep.sample(smp)
+    timing["cache_save_s"] = round(time.time() - t3, 2)
+    t4 = time.time()
     unconfirmed = []
     for sig, f in sorted(tot["fails"].items()):
         ok_ex = None
@@ -1247,6 +1277,8 @@ def run(ctx):
             unconfirmed.append(sig)
             continue
         rep.failures[sig] = {"signature": sig, "count": f["count"], "size": f["size"], "example": ok_ex}
+    timing["confirm_s"] = round(time.time() - t4, 2)
+    timing["total_s"] = round(time.time() - t0, 2)
     if unconfirmed:
         raise common.Machinery("batch observations not reproduced by real processes for %d signature(s), e.g. %s" % (len(unconfirmed), unconfirmed[0]))
     rep.traces_validated = rep.extra["golden_traces_in_fragment"]["total"]
